@@ -2509,6 +2509,17 @@ def c19_cases(tier, seed):
         c.meta.update({"printers": 1, "prints": {}, "bursts": bursts, "burst_keys": {k0: b"xy" if i % 3 else b"x"},
                        "key_delay_ms": [40, 15, 80, 4][i % 4], "no_model": 1})   # (the longer pauses: for a loaded machine)
         cases.append(c)
+    # a thread that prints without pause while many short reads start and end: every message still exactly once, whether it
+    # was written directly (no read in progress), handed to the reading thread, or caught between the two
+    for i in range(6 if tier == "thorough" else 3):
+        mode = ["emacs", "vi"][i % 2]
+        nreads = 250
+        cmds = [Cmd(["F12"], "noop"), Cmd(["Enter"], "enter")]
+        chunks = [b"".join(p_tty.key_bytes(k) for k in cmd.keys) for cmd in cmds]
+        c = script_case(cmds, mode=mode, chunks=chunks, cols=80, prompt="> ", timeout=0 if mode == "vi" else "none", reads=nreads + 1)
+        c.meta.update({"printers": 1, "prints": {}, "no_model": 1, "between_us": [1500, 400, 3000][i % 3],
+                       "flood": {"k": 0, "msgs": [(0, "<0:%d:f>\n" % j) for j in range(2 * nreads)], "enters": nreads}})
+        cases.append(c)
     # bursts: several threads are told to print at once, without waiting for one another (the editor may find
     # more than one wake-up pending); which message comes first is not determined, the oracle does not care
     for _ in range(n // 3):
@@ -2541,6 +2552,9 @@ def eval_c19(res, cases_out, stream, width):
         prints = dict(c.meta["prints"])
         for k, lst in (c.meta.get("bursts") or {}).items():
             prints[k] = list(prints.get(k, [])) + lst
+        if c.meta.get("flood"):
+            prints[c.meta["flood"]["k"]] = list(prints.get(c.meta["flood"]["k"], [])) + list(c.meta["flood"]["msgs"])
+            stats["flood_messages"] = stats.get("flood_messages", 0) + len(c.meta["flood"]["msgs"])
         allmsgs = [m for k in sorted(prints) for m in prints[k]]
         if allmsgs:
             stats["scripts_with_messages"] += 1
@@ -2586,7 +2600,9 @@ def eval_c19(res, cases_out, stream, width):
         if not ok:
             continue
         # per-thread order
-        for th in range(c.meta["printers"]):
+        # (the order clause speaks of messages sent during ONE wait: in the flood block a message queued as a read ends is
+        # shown by the next read, after messages written directly in between -- not judged there)
+        for th in range(c.meta["printers"] if not c.meta.get("flood") else 0):
             idx = [whole.index(m.split(":")[0] + ":" + m.split(":")[1] + ":") for (t2, m) in allmsgs if t2 == th]
             if idx != sorted(idx):
                 res.oracle_failures.append({"stream": stream, "case": line, "keys": c.keys,
@@ -2657,6 +2673,27 @@ def c19_pair_cases(tier, seed):
             # pipe would otherwise count as a read of terminal input in its quiescence test)
             c.meta["sync_keys"] = 1
         c1.meta["prints"] = prints      # (model: a raw read steps over the message, which stays in the stream for the main loop)
+        pairs.append((c1, c2))
+    # ... and inside the question of list completion (`Display all N possibilities? (y or n)`, more candidates than the prompt
+    # limit): the message waits until the question is answered
+    for i in range(max(4, n // 8)):
+        cmds = [Cmd([ch], "ins", c=ord(ch), n=1) for ch in ["", "a ", "b"][i % 3]] + [Cmd(["f"], "ins", c=102, n=1)]
+        cmds += [Cmd(["Tab"], "c_tab"), Cmd(["Tab"], "c_tab")]
+        at = len(cmds) - 1
+        if i % 2:
+            cmds.append(Cmd(["x"], "c_ignored"))
+        cmds += [Cmd([["n", "y", "N"][i % 3]], "c_answer")]
+        for ch in p_tty.rand_text(rng, 0, 2, ["z", "y"]):
+            cmds.append(Cmd([ch], "ins", c=ord(ch), n=1))
+        cmds += [Cmd(["F12"], "noop"), Cmd(["Enter"], "enter")]
+        chunks = [b"".join(p_tty.key_bytes(k) for k in cmd.keys) for cmd in cmds]
+        kw = dict(mode=["emacs", "vi"][(i // 2) % 2], chunks=chunks, cols=80, prompt="> ", timeout=0, reads=1,
+                  cands=["foo", "foobar", "food"], completion="list")
+        c1 = script_case(cmds, **kw)
+        c2 = script_case(cmds, **kw)
+        for c in (c1, c2):
+            c.meta.update({"printers": 1, "prints": {}, "sync_keys": 1, "prompt_limit": 2})
+        c1.meta["prints"] = {rng.randint(at, at + i % 2): [(0, "<0:0:asked>")]}
         pairs.append((c1, c2))
     return pairs
 
